@@ -9,7 +9,11 @@
 (*                  "B3" (b-spline of degree 3)                             *)
 (*   a point        "O" (the object's own position), "A", "Bc" (collinear   *)
 (*                  with O and A), "Cn" (not collinear), "A2" (a second     *)
-(*                  spelling of A: fractional part, truncated by the code)  *)
+(*                  spelling of A: fractional part, truncated by the code), *)
+(*                  "G1" "G2" (far away and exactly collinear with O: the   *)
+(*                  products of the collinearity test exceed 2^24, where    *)
+(*                  single-precision arithmetic is no longer exact; both    *)
+(*                  products round alike, so the test still yields 0)       *)
 (*   "bad"          a point whose coordinates do not parse / exceed 131072  *)
 (*   "empty"        an empty token                                          *)
 (* A control point is [p |-> point name, ty |-> "none" | type].             *)
@@ -18,13 +22,14 @@
 EXTENDS Integers, Sequences
 
 Letters   == {"B", "L", "P", "C", "X", "B3"}
-Points    == {"O", "A", "Bc", "Cn", "A2"}
+Points    == {"O", "A", "Bc", "Cn", "A2", "G1", "G2"}
 PathTokens == Letters \cup Points \cup {"bad", "empty"}
 
 \* absolute coordinates; the object sits at O.  A2 truncates to A.
 \* (x # y relative to the object for every point except O, so that a swapped coordinate shows)
 Coord(p) == CASE p = "O" -> <<10, 10>> [] p = "A" -> <<50, 30>> [] p = "A2" -> <<50, 30>>
               [] p = "Bc" -> <<90, 50>> [] p = "Cn" -> <<100, 0>>
+              [] p = "G1" -> <<8203, 4107>> [] p = "G2" -> <<16396, 8204>>
 \* canonical name after integer truncation
 Canon(p) == IF p = "A2" THEN "A" ELSE p
 
